@@ -115,13 +115,41 @@ def run(ctx):
         # too few names are rejected (only meaningful when the tree uses a feature index beyond the list)
         used = sorted({f for f in model.tree_.features if f is not None})
         if used:
-            few = [f"g{j}" for j in range(max(used))]   # one name short of the largest used index
+            # every list that does not reach the largest used feature index is rejected: a ValueError/TypeError raised
+            # BEFORE anything is printed (an IndexError half-way through the text is a crash, not a rejection) ...
+            for L in sorted({0, max(used) // 2, max(used) - 1, max(used)} - {-1}):
+                few = [f"g{j}" for j in range(L)]
+                for kind, arg in (("list", few), ("ndarray", np.array(few, dtype=object))):
+                    buf = io.StringIO()
+                    try:
+                        with contextlib.redirect_stdout(buf):
+                            from gemclus.tree import print_kauri_tree as _p
+                            _p(model, arg)
+                        ctx.violation(f"{L} feature names ({kind}) accepted although the tree uses feature {max(used)}", "print",
+                                      {**inp, "names": few}, key="print:too-few-accepted", how=how)
+                    except (ValueError, TypeError):
+                        if buf.getvalue():
+                            ctx.violation(f"{L} feature names ({kind}) rejected only after part of the tree was printed", "print",
+                                          {**inp, "names": few, "printed": buf.getvalue()}, key="print:too-few-late", how=how)
+                        ctx.count("too-few-rejected")
+                    except Exception as e:
+                        ctx.violation(f"{L} feature names ({kind}) for a tree that uses feature {max(used)}: {type(e).__name__}: {e} "
+                                      f"instead of a rejection (ValueError/TypeError before printing)", "print",
+                                      {**inp, "names": few, "printed": buf.getvalue()}, key="print:too-few-crash", how=how)
+            # ... and a list that just covers the used features is enough
+            just = [f"h{j}" for j in range(max(used) + 1)]
             try:
-                printed(model, few)
-                ctx.violation(f"{len(few)} feature names accepted although the tree uses feature {max(used)}", "print",
-                              {**inp, "names": few}, key="print:too-few-accepted", how=how)
-            except Exception:
-                ctx.count("too-few-rejected")
+                t2 = printed(model, just)
+                r2 = parse_rules(t2, just)
+                for r in range(len(Q)):
+                    if eval_rules(r2, Q[r], lambda nm: just.index(nm)) != pq[r]:
+                        ctx.violation(f"with {len(just)} names (just covering the used features) the printed rules disagree with predict at {Q[r].tolist()}",
+                                      "print", {**inp, "names": just, "printed": t2}, key="print:unfaithful:just-enough", how=how)
+                        break
+                ctx.count("names:just-enough")
+            except Exception as e:
+                ctx.violation(f"{len(just)} names cover every used feature (largest index {max(used)}) but print_kauri_tree raised "
+                              f"{type(e).__name__}: {e}", "print", {**inp, "names": just}, key="print:just-enough-rejected", how=how)
     # real-valued data (thresholds with many significant digits): read-back oracle only (the exact Lean tie uses
     # dyadic data); the query points include the training samples that define the thresholds
     from gemclus.tree import Kauri
